@@ -18,7 +18,7 @@ Definition run_facts (args : list Z) : list Z :=
       else
         0 :: e_facts (facts rtl lu t)
           ++ [get_anchors t]
-          ++ (match bm_prefix t with
+          ++ (match bm_prefix_dir rtl t with
               | Some (s, ci) => 1 :: e_zlist s ++ e_bool ci
               | None => 0 :: e_zlist [] ++ e_bool false
               end)
